@@ -31,7 +31,8 @@ TEST_FILES = ["tests/test_signal.py", "tests/test_transforms.py", "tests/test_de
 NEG = [("Neg_Dask_chirpkey.cfg", "OrderIndependent"), ("Neg_Dask_nofftcheck.cfg", "SameAsNumpy"),
        ("Neg_Dask_eager.cfg", "Lazy"), ("Neg_Dask_numpy.cfg", "StaysDask"),
        ("Neg_Dask_readerblocks.cfg", "SameAsNumpy"), ("Neg_Dask_overwrite.cfg", "InputsStable"),
-       ("Neg_Dask_overwrite2.cfg", "SameAsNumpy")]
+       ("Neg_Dask_overwrite2.cfg", "SameAsNumpy"), ("Neg_Dask_stickykw.cfg", "SameAsNumpy"),
+       ("Neg_Dask_setitemlost.cfg", "SameAsNumpy"), ("Neg_Dask_sharedhandle.cfg", "OrderIndependent")]
 
 
 def _load(path):
@@ -176,6 +177,7 @@ def run(chk):
     dd.run_binary(nd // 6, drnd, out)
     dd.run_concat(nd // 6, drnd, out)
     dd.run_histories(nd // 4, drnd, out)
+    dd.run_transform_calls(nd // 6, drnd, out)
     dd.run_readers(drnd, out, REPO, nreads=12 if thorough else 4)
     absorb(out, {"kind": "driver", "seed": drv_seed, "n": nd, "thorough": thorough})
     chk.validated += nd + 2 * (nd // 6)
@@ -309,6 +311,7 @@ def replay(doc):
         dd.run_binary(nd // 6, drnd, res)
         dd.run_concat(nd // 6, drnd, res)
         dd.run_histories(nd // 4, drnd, res)
+        dd.run_transform_calls(nd // 6, drnd, res)
         dd.run_readers(drnd, res, REPO, nreads=12 if src.get("thorough") else 4)
     else:
         out = os.path.join(SCR, "C09_tests_replay_%d.json" % os.getpid())
